@@ -15,6 +15,7 @@ import RedisVerif.Driver.C19
 import RedisVerif.Driver.C18
 import RedisVerif.Driver.C05
 import RedisVerif.Driver.C16
+import RedisVerif.Driver.C20
 
 open RedisVerif.Driver
 
@@ -55,4 +56,5 @@ def main (args : List String) : IO UInt32 := do
   | ["C14"] => loopState stdin stdout C14.step {}; return 0
   | ["C19"] => loopState stdin stdout C19.step C19.St.init; return 0
   | ["C18"] => loopState stdin stdout C18.step C18.St.init; return 0
+  | ["C20"] => loopState stdin stdout C20.step C20.St.init; return 0
   | _ => IO.eprintln "usage: rvdriver <property-id> < ops"; return 2
